@@ -131,7 +131,8 @@ theorem loadContainer_ok (st : Store) (h : Hdr) (rds : List RawDesc) (L : Loadab
   simp only [Int.toNat_zero, Nat.zero_add, L.hhdr, decHdr_encHdr h L.hv]
   simp only [L.magic, L.version, bne_self_eq_false, Bool.false_eq_true, ↓reduceIte]
   have ht : ¬ h.dtotal < 0 := by rw [L.total]; omega
-  simp only [ht, ↓reduceIte]
+  have hd0 : ¬ h.doff < 0 := by have := L.doff; omega
+  simp only [ht, hd0, ↓reduceIte]
   have hn : h.dtotal.toNat = rds.length := by rw [L.total]; simp
   rw [hn, readDescriptors_ok st.buf h.doff h.dsize rds L.doff L.dsize L.tlen L.htab L.dv L.dl L.nov
     rds.length 0 [] (by omega)]
